@@ -29,6 +29,8 @@ import (
 	"time"
 
 	"github.com/reugn/go-quartz/job"
+	qlogger "github.com/reugn/go-quartz/logger"
+	"github.com/reugn/go-quartz/quartz"
 )
 
 func init() { commands["jobs"] = jobsRun }
@@ -312,6 +314,8 @@ func jobsRun(args []string) int {
 	phase("contexts", func() { jbContexts(r) })
 	phase("ended-context", func() { jbEnded(r) })
 	phase("leak", func() { jbLeak(r, bg, *leakN, *skipShell) })
+	// last: on a defective tree this phase leaves goroutines blocked for ever, which must not disturb the counts of the leak phase
+	phase("panicking-handler", func() { jbPanickingHandler(r, bg, rng) })
 
 	writeLines(*out+"/ops.txt", r.ops)
 	writeLines(*out+"/impl.txt", r.impl)
@@ -1559,5 +1563,297 @@ func jbLeak(r *jbRun, ctx context.Context, n int, skipShell bool) {
 	if !skipShell {
 		sj := job.NewShellJob("printf x; printf y >&2")
 		check("ShellJob", func() { _ = sj.Execute(ctx) }, nil)
+	}
+}
+
+// ---------------------------------------------------------------------------------------------- a panicking HTTPHandler
+
+// The HTTP client of a CurlJob is user code (job.HTTPHandler): it may panic. The scheduler recovers the panic of a job and carries
+// on; the job object must then still be usable: JobStatus() / DumpResponse() answer, the next Execute runs (and is reported
+// faithfully), and executions do not pile up behind a mutex that the panicking execution left locked ("executing a job
+// repeatedly does not accumulate goroutines": a blocked Execute is a goroutine — a worker of the scheduler — that never ends).
+
+const jbPanicDeadline = 8 * time.Second // one-sided: the calls judged take microseconds
+
+type jbHandlerPanic struct{ call int64 }
+
+// jbPanicClient plays the script of its inner client, but panics on its k-th call.
+type jbPanicClient struct {
+	inner   *jbScriptClient
+	panicAt int64
+	calls   int64
+}
+
+func (c *jbPanicClient) Do(req *http.Request) (*http.Response, error) {
+	if n := atomic.AddInt64(&c.calls, 1); n == c.panicAt {
+		panic(jbHandlerPanic{n})
+	}
+	return c.inner.Do(req)
+}
+
+// jbWithin runs f on its own goroutine and waits for it at most d.
+func jbWithin[T any](d time.Duration, f func() T) (T, bool) {
+	ch := make(chan T, 1)
+	go func() { ch <- f() }()
+	t := time.NewTimer(d)
+	defer t.Stop()
+	select {
+	case v := <-ch:
+		return v, true
+	case <-t.C:
+		var zero T
+		return zero, false
+	}
+}
+
+type jbExecResult struct {
+	recovered any
+	err       error
+}
+
+// jbExecRecovered executes the job the way the scheduler's executeWithRetries does: a panic is recovered.
+func jbExecRecovered(ctx context.Context, cj *job.CurlJob) (out jbExecResult) {
+	defer func() { out.recovered = recover() }()
+	out.err = cj.Execute(ctx)
+	return
+}
+
+func jbScriptText(script []jbCurlOutcome) string {
+	var parts []string
+	for _, o := range script {
+		t := strconv.Itoa(o.code)
+		if o.code < 0 {
+			t = "nil"
+		}
+		if o.body {
+			t += "+body"
+		}
+		if o.err {
+			t += "+err"
+		}
+		parts = append(parts, t)
+	}
+	return "[" + strings.Join(parts, " ") + "]"
+}
+
+// jbPanicCase: executions 1..k-1 return, execution k panics inside the handler (recovered), then the accessors must answer and
+// executions k+1.. must run and be reported faithfully. Returns false when something blocked (the caller stops the phase: a
+// blocked call leaves a goroutine behind).
+func jbPanicCase(r *jbRun, ctx context.Context, k int, script []jbCurlOutcome, withCallback bool) bool {
+	inner := &jbScriptClient{script: script}
+	cl := &jbPanicClient{inner: inner, panicAt: int64(k)}
+	var cbs int64
+	opts := job.CurlJobOptions{HTTPClient: cl}
+	if withCallback {
+		opts.Callback = func(context.Context, *job.CurlJob) { atomic.AddInt64(&cbs, 1) }
+	}
+	cj := job.NewCurlJobWithOptions(jbRequest("http://qh.invalid/panicking-handler"), opts)
+	what := fmt.Sprintf("CurlJob with a custom HTTPHandler that panics on its call #%d (other calls answer %s in turn; callback %v)", k, jbScriptText(script), withCallback)
+	r.count("panicking-handler", fmt.Sprintf("panic at call %d", k))
+	outcomeOf := func(i int) jbCurlOutcome { // of Execute #i (1-based); the panicking call does not consume a script entry
+		if i > k {
+			i--
+		}
+		return script[(i-1)%len(script)]
+	}
+	faithful := func(i int, err error) {
+		o := outcomeOf(i)
+		inner.mu.Lock()
+		wantErr := inner.errs[len(inner.errs)-1]
+		inner.mu.Unlock()
+		if err != wantErr {
+			r.flag("%s: Execute #%d returned %v, the handler returned %v", what, i, err, wantErr)
+		}
+		wantOK := o.code >= 0 && jbCodeOK(o.code)
+		if st := cj.JobStatus(); (st == job.StatusOK) != wantOK || (st != job.StatusOK && st != job.StatusFailure) {
+			r.flag("%s: after Execute #%d (handler answered %s) JobStatus() = %s", what, i, jbScriptText([]jbCurlOutcome{o}), jbStatus(st))
+		}
+		wantCode := "nil"
+		if o.code >= 0 {
+			wantCode = strconv.Itoa(o.code)
+		}
+		if got := jbStoredCode(cj); got != wantCode {
+			r.flag("%s: after Execute #%d (handler answered %s) DumpResponse shows %s", what, i, jbScriptText([]jbCurlOutcome{o}), got)
+		}
+	}
+	for i := 1; i < k; i++ {
+		res, ok := jbWithin(jbPanicDeadline, func() jbExecResult { return jbExecRecovered(ctx, cj) })
+		if !ok {
+			r.flag("%s: Execute #%d (before any panic) did not return within %v", what, i, jbPanicDeadline)
+			return false
+		}
+		if res.recovered != nil {
+			r.flag("%s: Execute #%d panicked with %v although the handler did not", what, i, res.recovered)
+			return true
+		}
+		faithful(i, res.err)
+	}
+	cbBefore := atomic.LoadInt64(&cbs)
+	res, ok := jbWithin(jbPanicDeadline, func() jbExecResult { return jbExecRecovered(ctx, cj) })
+	if !ok {
+		r.flag("%s: Execute #%d (the one whose handler panics) neither returned nor panicked within %v", what, k, jbPanicDeadline)
+		return false
+	}
+	if res.recovered == nil {
+		r.count("panicking-handler", "the panic did not reach the caller of Execute")
+	} else if _, ours := res.recovered.(jbHandlerPanic); !ours {
+		r.flag("%s: Execute #%d panicked with %v instead of the handler's panic value", what, k, res.recovered)
+	}
+	// the panic has been recovered (as the scheduler does): the job object must still answer
+	t0 := time.Now()
+	if _, ok := jbWithin(jbPanicDeadline, cj.JobStatus); !ok {
+		r.flag("%s: JobStatus() has not returned %v after the panic of Execute #%d was recovered (as the scheduler does for a panicking job): "+
+			"the job's mutex was left locked — every later Execute of this job blocks its goroutine (a worker of the scheduler) for ever", what, jbPanicDeadline, k)
+		return false
+	}
+	if _, ok := jbWithin(jbPanicDeadline, func() error { _, e := cj.DumpResponse(false); return e }); !ok {
+		r.flag("%s: DumpResponse() has not returned %v after the panic of Execute #%d was recovered", what, jbPanicDeadline, k)
+		return false
+	}
+	r.count("panicking-handler", "accessors answered after the recovered panic")
+	_ = t0
+	if d := atomic.LoadInt64(&cbs) - cbBefore; d > 1 {
+		r.flag("%s: the callback ran %d times for the panicking Execute #%d", what, d, k)
+	}
+	for i := k + 1; i <= k+3; i++ {
+		cbBefore = atomic.LoadInt64(&cbs)
+		res, ok := jbWithin(jbPanicDeadline, func() jbExecResult { return jbExecRecovered(ctx, cj) })
+		if !ok {
+			r.flag("%s: Execute #%d (after the recovered panic of #%d) did not return within %v: executions pile up behind the job's mutex", what, i, k, jbPanicDeadline)
+			return false
+		}
+		if res.recovered != nil {
+			r.flag("%s: Execute #%d panicked with %v although only call #%d of the handler panics", what, i, res.recovered, k)
+			return true
+		}
+		if n := atomic.LoadInt64(&cl.calls); n != int64(i) {
+			r.flag("%s: after Execute #%d the handler has been called %d times", what, i, n)
+		}
+		faithful(i, res.err)
+		if withCallback {
+			if d := atomic.LoadInt64(&cbs) - cbBefore; d != 1 {
+				r.flag("%s: the callback ran %d times for Execute #%d (after the recovered panic)", what, d, i)
+			}
+		}
+		r.count("panicking-handler", "execution after the recovered panic judged")
+	}
+	if open, _, _ := inner.counts(); open > 1 {
+		r.flag("%s: %d response bodies are open after %d executions (at most the last response's body may stay open)", what, open, k+3)
+	}
+	return true
+}
+
+func jbPanickingHandler(r *jbRun, ctx context.Context, rng *rand.Rand) {
+	scripts := [][]jbCurlOutcome{
+		{{code: 200, body: true}},
+		{{code: 200, body: true}, {code: 404, body: true}, {code: -1, err: true, errText: "refused"}, {code: 302}, {code: 503, body: true, err: true, errText: "both"}},
+		{{code: 500, body: true}, {code: 204}},
+	}
+	ks := []int{1, 2, 3, 4 + rng.Intn(6)}
+	for _, k := range ks {
+		for si, script := range scripts {
+			for _, cb := range []bool{false, true} {
+				rot := append(append([]jbCurlOutcome{}, script[si%len(script):]...), script[:si%len(script)]...)
+				if !jbPanicCase(r, ctx, k, rot, cb) {
+					return // something blocked: do not leave more goroutines behind
+				}
+			}
+		}
+	}
+
+	// several goroutines execute ONE job whose handler panics once: everybody finishes (each recovers like the scheduler)
+	{
+		const G, K = 4, 12
+		at := 3 + rng.Intn(G*K-6)
+		inner := &jbScriptClient{script: []jbCurlOutcome{{code: 200, body: true}, {code: 500, body: true}}}
+		cl := &jbPanicClient{inner: inner, panicAt: int64(at)}
+		cj := job.NewCurlJobWithOptions(jbRequest("http://qh.invalid/panicking-handler-concurrent"), job.CurlJobOptions{HTTPClient: cl})
+		base := runtime.NumGoroutine()
+		var panics, returned int64
+		done := make(chan struct{}, G)
+		for g := 0; g < G; g++ {
+			go func() {
+				defer func() { done <- struct{}{} }()
+				for i := 0; i < K; i++ {
+					if jbExecRecovered(ctx, cj).recovered != nil {
+						atomic.AddInt64(&panics, 1)
+					} else {
+						atomic.AddInt64(&returned, 1)
+					}
+				}
+			}()
+		}
+		finished := 0
+		t := time.NewTimer(jbPanicDeadline)
+	wait:
+		for finished < G {
+			select {
+			case <-done:
+				finished++
+			case <-t.C:
+				break wait
+			}
+		}
+		t.Stop()
+		r.count("panicking-handler", "concurrent executions of one job, one panic")
+		if finished < G {
+			r.flag("%d goroutines executing ONE CurlJob %d times each, its custom HTTPHandler panics on call #%d (recovered by the caller, as the scheduler does): only %d of %d goroutines "+
+				"finished within %v (%d executions returned, %d panicked; %d goroutines now, %d before): the executions after the panic block for ever on the job's mutex",
+				G, K, at, finished, G, jbPanicDeadline, atomic.LoadInt64(&returned), atomic.LoadInt64(&panics), runtime.NumGoroutine(), base)
+			return
+		}
+		if p, n := atomic.LoadInt64(&panics), atomic.LoadInt64(&returned); p != 1 || n != G*K-1 {
+			r.flag("%d goroutines executing ONE CurlJob %d times each, its HTTPHandler panics on call #%d only: %d executions panicked, %d returned", G, K, at, p, n)
+		}
+		if _, ok := jbWithin(jbPanicDeadline, cj.JobStatus); !ok {
+			r.flag("JobStatus() of a CurlJob blocked after %d concurrent executions with one panicking handler call", G*K)
+			return
+		}
+		if open, _, _ := inner.counts(); open > 1 {
+			r.flag("%d response bodies open after %d concurrent executions of one CurlJob with one panicking handler call", open, G*K)
+		}
+		if g := jbSettle(base+jbSlack, 2*time.Second); g > base+jbSlack {
+			r.flag("goroutines grew from %d to %d over %d concurrent executions of one CurlJob with one panicking handler call", base, g, G*K)
+		}
+	}
+
+	// the same through a real scheduler: it recovers the panic of fire #2 (C13) — the job must keep being executed at later fire times
+	{
+		const wantCalls = 8
+		inner := &jbScriptClient{script: []jbCurlOutcome{{code: 200, body: true}}}
+		cl := &jbPanicClient{inner: inner, panicAt: 2}
+		cj := job.NewCurlJobWithOptions(jbRequest("http://qh.invalid/panicking-handler-scheduled"), job.CurlJobOptions{HTTPClient: cl})
+		base := runtime.NumGoroutine()
+		s, err := quartz.NewStdScheduler(quartz.WithLogger(qlogger.NoOpLogger{}), quartz.WithOutdatedThreshold(time.Minute))
+		must(err)
+		sctx, cancel := context.WithCancel(ctx)
+		s.Start(sctx)
+		must(s.ScheduleJob(quartz.NewJobDetail(cj, quartz.NewJobKey("panicking-handler")), quartz.NewSimpleTrigger(5*time.Millisecond)))
+		deadline := time.Now().Add(jbPanicDeadline)
+		for atomic.LoadInt64(&cl.calls) < wantCalls && time.Now().Before(deadline) {
+			time.Sleep(2 * time.Millisecond)
+		}
+		calls := atomic.LoadInt64(&cl.calls)
+		during := runtime.NumGoroutine()
+		r.count("panicking-handler", "scheduled every 5 ms, handler panics at the second fire time")
+		blocked := false
+		if calls < wantCalls {
+			blocked = true
+			r.flag("a CurlJob scheduled every 5 ms whose custom HTTPHandler panics on its call #2 (the scheduler recovers the panic and keeps running): the handler was called only %d times "+
+				"in %v — after the panic every fire time starts an Execute that blocks on the job's mutex (%d goroutines before Start, %d now)", calls, jbPanicDeadline, base, during)
+		} else if _, ok := jbWithin(jbPanicDeadline, cj.JobStatus); !ok {
+			blocked = true
+			r.flag("JobStatus() of a scheduled CurlJob blocked after its handler panicked once")
+		}
+		s.Stop()
+		cancel()
+		wctx, wcancel := context.WithTimeout(context.Background(), 3*time.Second)
+		s.Wait(wctx)
+		wcancel()
+		if !blocked {
+			if g := jbSettle(base+jbSlack, 3*time.Second); g > base+jbSlack {
+				r.flag("goroutines grew from %d to %d over a scheduler run (%d fire times) of a CurlJob whose handler panicked once", base, g, calls)
+			}
+		}
 	}
 }
